@@ -370,17 +370,47 @@ def cunary_concrete(p, m):
 
 
 # ------------------------------------------------------------------------------ equality
+def _ceq_rhs(ob, p, w):
+    """right-hand operand of the requested Python type denoting the complex value w (components of w carry the symbolic bits)"""
+    from pysym.models import SFloat, SComplex
+    rhs = p.get('rhs', 'mpc')
+    mp = _ctx(53)
+    if rhs == 'mpc':
+        return mp.make_mpc(w)
+    if rhs == 'mpf':
+        return mp.make_mpf(w[0])
+
+    def ival(x):
+        return V.merge(neg_of(x), V.neg(x[1]), x[1]) if not isinstance(x[0], int) else (V.neg(x[1]) if x[0] else x[1])
+    if rhs == 'int':
+        return ival(w[0])
+    if rhs == 'float':
+        return SFloat(ival(w[0]), w[0][2])
+    if rhs == 'complex':
+        im = SFloat(ival(w[1]), w[1][2]) if w[1] != FZERO else 0.0
+        return SComplex(SFloat(ival(w[0]), w[0][2]), im)
+    raise Unsupported('rhs ' + rhs)
+
+
 def ceq(p):
-    """_mpc.__eq__ / __ne__ against mpc, and against int / mpf (imaginary part must be zero)"""
+    """_mpc.__eq__ / __ne__ against mpc, mpf (imaginary part must be zero), and Python int / float / complex.
+    For the Python-typed right-hand sides the base exponent of w is concrete (`wexp`, default 0) and the signs of w's
+    components are part of the shape (`wneg`): the float model needs a mantissa of fixed bit length."""
     zb_, wb_, zo, wo, off, fn = p['zbc'], p['wbc'], p['zoff'], p['woff'], p['off'], p['fn']
     mx = max(max(zb_), max(wb_)) + abs(off) + abs(zo) + abs(wo)
     ob = Ob(wbump(p, mx + 70), timeout_s=p.get('_t', 60))
-    w, we = cshape(ob, p, 'w', wb_, wo)
+    rhs = p.get('rhs', 'mpc')
+    if rhs in ('mpc', 'mpf'):
+        w, we = cshape(ob, p, 'w', wb_, wo)
+    else:
+        we = p.get('wexp', 0)
+        wn = p.get('wneg', [0, 0])
+        w = (ob.mpf('w_re', wb_[0], exp=we, sign=wn[0]) if wb_[0] else FZERO,
+             ob.mpf('w_im', wb_[1], exp=we + wo, sign=wn[1]) if wb_[1] and rhs == 'complex' else FZERO)
     z, ze = cshape(ob, p, 'z', zb_, zo, base=add(we, off))
     mp = _ctx(53)
     zo_ = mp.make_mpc(z)
-    rhs = p.get('rhs', 'mpc')
-    wo_ = mp.make_mpc(w) if rhs == 'mpc' else mp.make_mpf(w[0])
+    wo_ = _ceq_rhs(ob, p, w)
     outs = ob.run(getattr(mp.mpc, fn), [zo_, wo_])
     lo = min(0, off, off + zo, wo)
 
@@ -388,7 +418,7 @@ def ceq(p):
         n, mg = _term(x, sh - lo)
         return signed(n, mg)
     eq_re = val(z[0], off) == val(w[0], 0)
-    eq_im = val(z[1], off + zo) == (val(w[1], wo) if rhs == 'mpc' else B(0))
+    eq_im = val(z[1], off + zo) == (val(w[1], wo) if rhs in ('mpc', 'complex') else B(0))
     want = z3.And(eq_re, eq_im)
     if fn == '__ne__':
         want = z3.Not(want)
@@ -396,18 +426,35 @@ def ceq(p):
 
 
 def ceq_concrete(p, m):
-    w = cconc(m, 'w', p['wbc'], p['woff'])
-    z = cconc(m, 'z', p['zbc'], p['zoff'], base=m.get('w_exp', 0) + p['off'])
+    import math
+    rhs = p.get('rhs', 'mpc')
+    if rhs in ('mpc', 'mpf'):
+        w = cconc(m, 'w', p['wbc'], p['woff'])
+        E0 = m.get('w_exp', 0)
+    else:
+        E0 = p.get('wexp', 0)
+        wn = p.get('wneg', [0, 0])
+        w = (mk_tuple(m, 'w_re', p['wbc'][0], exp=E0, sign=wn[0]) if p['wbc'][0] else FZERO,
+             mk_tuple(m, 'w_im', p['wbc'][1], exp=E0 + p['woff'], sign=wn[1]) if p['wbc'][1] and rhs == 'complex' else FZERO)
+    z = cconc(m, 'z', p['zbc'], p['zoff'], base=E0 + p['off'])
     mp = _ctx(53)
     zo_ = mp.make_mpc(z)
-    rhs = p.get('rhs', 'mpc')
-    wo_ = mp.make_mpc(w) if rhs == 'mpc' else mp.make_mpf(w[0])
-    r = (zo_ == wo_) if p['fn'] == '__eq__' else (zo_ != wo_)
-    E0 = m.get('w_exp', 0)
     f = lambda t: O.frac_of(t, E0) if t != FZERO else Fraction(0)
-    same = f(z[0]) == f(w[0]) and f(z[1]) == (f(w[1]) if rhs == 'mpc' else 0)
+    fl = lambda t: math.ldexp(-t[1] if t[0] else t[1], t[2]) if t != FZERO else 0.0
+    if rhs == 'mpc':
+        wo_ = mp.make_mpc(w)
+    elif rhs == 'mpf':
+        wo_ = mp.make_mpf(w[0])
+    elif rhs == 'int':
+        wo_ = (-w[0][1] if w[0][0] else w[0][1]) << w[0][2]
+    elif rhs == 'float':
+        wo_ = fl(w[0])
+    else:
+        wo_ = complex(fl(w[0]), fl(w[1]))
+    r = (zo_ == wo_) if p['fn'] == '__eq__' else (zo_ != wo_)
+    same = f(z[0]) == f(w[0]) and f(z[1]) == (f(w[1]) if rhs in ('mpc', 'complex') else 0)
     want = same if p['fn'] == '__eq__' else not same
-    return r == want, 'mpc %r %s %r -> %r, exact %r' % (z, p['fn'], w, r, want)
+    return r == want, 'mpc %r %s %r -> %r, exact %r' % (z, p['fn'], wo_, r, want)
 
 
 # ------------------------------------------------------------------------------ wrapper obligations with kernel stubs (C10)
@@ -460,3 +507,78 @@ def nthroot_bits_concrete(p, m):
     limit = int(1.2 * (p['prec'] + 10)) if p.get('_known') == 'F11' else p['prec']
     bad = [c for c in r if not O.canonical_concrete(tuple(c), limit)]
     return not bad, 'mpc_nthroot(%r, %d, prec=%d) returned parts with %s bits' % ((a, b), p['n'], p['prec'], [c[3] for c in r])
+
+
+# ------------------------------------------------------------------------------ z ** n (n >= 0, exact path)
+def _cpow_terms(z, zoff, n):
+    """exact (a + b i)**n as two signed BVs at scale 2**(n*(e+lo)), lo = min(0, zoff)"""
+    lo = min(0, zoff)
+    a, b = z
+    am = signed(neg_of(a), zt(a[1]) << (0 - lo)) if a != FZERO else B(0)
+    bm = signed(neg_of(b), zt(b[1]) << (zoff - lo)) if b != FZERO else B(0)
+    re, im = B(1), B(0)
+    for _ in range(n):
+        re, im = re * am - im * bm, im * am + re * bm
+    return re, im, lo
+
+
+def cpow_int(p):
+    """mpc_pow_int(z, n, prec, rnd) / z ** n for 0 <= n on the exact path (exact size < 10000 bits): each part is the correctly
+    rounded exact component of (a+bi)**n.  Pure-imaginary bases (the i**n rotation branch) with rounding to nearest."""
+    zb_, zo, n, prec, rnd = p['zbc'], p['zoff'], p['n'], p['prec'], p['rnd']
+    mx = n * (max(zb_) + abs(zo)) + n + 2
+    ob = Ob(wbump(p, mx + prec + 70), timeout_s=p.get('_t', 60), mul_precise_bits=4096)
+    z, ze = cshape(ob, p, 'z', zb_, zo)
+    Lc = libmpc()
+    entry = p.get('entry', 'libmp')
+    if entry == 'libmp':
+        outs = ob.run(Lc.mpc_pow_int, [z, n, prec, rnd])
+        unwrap = lambda v, st: v
+    else:
+        mp = _ctx(prec)
+        outs = ob.run(mp.mpc.__pow__, [mp.make_mpc(z), n])
+        unwrap = _unwrap_mpc(mp.mpc)
+    Xre, Xim, lo = _cpow_terms(z, zo, n)
+    base = (zt(ze) + B(lo)) * B(n)
+
+    def good(val, st):
+        val = unwrap(val, st)
+        if val is None:
+            return False
+        re, im = val
+        if n == 0:
+            return [is_tuple(re, (0, 1, 0, 1)), is_tuple(im, FZERO)]
+        return [rounded_ok(re, Xre, base, prec, rnd, mx), rounded_ok(im, Xim, base, prec, rnd, mx)]
+    return finish(ob, ob.prove(outs, good))
+
+
+def cpow_int_concrete(p, m):
+    zb_, zo, n, prec, rnd = p['zbc'], p['zoff'], p['n'], p['prec'], p['rnd']
+    z = cconc(m, 'z', zb_, zo)
+    Lc = libmpc()
+    if p.get('entry', 'libmp') == 'libmp':
+        r = Lc.mpc_pow_int(z, n, prec, rnd)
+    else:
+        mp = _ctx(prec)
+        try:
+            r = (mp.make_mpc(z) ** n)._mpc_
+        finally:
+            mp.prec = 53
+    ez = m.get('z_exp', 0)
+    f = lambda t: O.frac_of(t, ez) if t != FZERO else Fraction(0)
+    a, b = f(z[0]), f(z[1])
+    er, ei = Fraction(1), Fraction(0)
+    for _ in range(n):
+        er, ei = er * a - ei * b, ei * a + er * b
+    res = []
+    for part, ex, nm in ((r[0], er, 're'), (r[1], ei, 'im')):
+        if n == 0:
+            want = (0, 1, 0, 1) if nm == 're' else FZERO
+            ok, d = tuple(part) == want, '%r' % (part,)
+        elif ex == 0:
+            ok, d = tuple(part) == FZERO, 'exact part is zero, got %r' % (part,)
+        else:
+            ok, d = O.check_rounded(part, ex, prec, rnd, shift=ez * n)
+        if not ok:
+            res.append(nm + ': ' + d)
+    return not res, ' '.join(res)
